@@ -207,6 +207,9 @@ func TestC10(t *testing.T) {
 		n = envInt("VERIF_N", 300000)
 	}
 	forCases(n, 10, "q", func(i int, r *rng, id string) { qSeq(r, id, 1+r.intn(40)) })
+	// retransmitLimit over whole ranges of the cluster size and at the powers of ten / two
+	forCases(6, 12, "sc", func(i int, r *rng, id string) { scaleLeg("C10", "retransmit", r, id, 60) })
+	forCases(1, 13, "sp", func(i int, r *rng, id string) { scalePoints("C10", "retransmit", id) })
 	// retransmitLimit against mult * (number of decimal digits of n)
 	forCases(1, 11, "rl", func(i int, r *rng, id string) {
 		ns := []int{0, 1, 2, 8, 9, 10, 11, 98, 99, 100, 101, 999, 1000, 1001, 9999, 10000, 99999, 100000, 999999, 1000000, 9999999, 10000000}
